@@ -121,6 +121,9 @@ class Kernel:
             for _ in range(sched_cfg.get("d", 2)):
                 self.change_points.add(self.rng.randrange(1, horizon))
         self._low_prio = 0.0
+        # virtual CPU cost of one kernel step: with a non-zero cost the clock advances while threads compute, so network
+        # deliveries and timer expiries can land in the middle of activity (not only when every thread is blocked)
+        self.step_cost = sched_cfg["cpu"] if "cpu" in sched_cfg else self.rng.choice([0.0, 0.0, 1e-6, 2e-5])
         self.tid_counter = 0
         self.spawned = 0
         self.thread_errors: list = []
@@ -307,6 +310,22 @@ class Kernel:
                 return True
         return False
 
+    def _fire_due(self):
+        """Run every scheduled event / expired deadline whose time has come (called at yield points)."""
+        n = 0
+        while self.heap and self.heap[0][0] <= self.now and n < 64:
+            _t, _o, kind, payload = heapq.heappop(self.heap)
+            n += 1
+            if kind == "deadline":
+                rec, gen = payload
+                if rec.state == BLOCKED and rec.wait_gen == gen:
+                    self.wake(rec, TIMEOUT)
+            else:
+                fn, args = payload
+                fn(*args)
+        if n:
+            self.probe("event_during_activity", n)
+
     def _check_vtime(self):
         if self.now > self.limits.max_vtime and self.abort is None:
             self._abort_locked("vtime-cap", f"virtual time {self.now:.1f}s")
@@ -374,6 +393,10 @@ class Kernel:
         cur.steps += 1
         if self.steps > self.limits.max_steps:
             self._abort("step-cap", f"{self.steps} kernel steps")
+        if self.step_cost:
+            self.now += self.step_cost
+        if self.heap and self.heap[0][0] <= self.now:
+            self._fire_due()   # events that are due (zero-latency deliveries, expired timers) land mid-activity
         root = self.root
         if root.step_wake is not None and self.steps >= root.step_wake and root.state == BLOCKED:
             root.step_wake = None
